@@ -51,13 +51,14 @@ MkC(par) ==
                 [] site = "includebroken"  -> <<Incl("call", BrokenName)>>
                 [] site = "execbroken"     -> <<ExecLet("call", "r", BrokenName)>>
                 \* one call site, a different template each time round
-                [] site = "includecomputed" -> <<RangeS("ccr", "none", "", "", "", ListE("slice", <<"cal2", "cal3", "cal", "cal2">>), <<Incl("call", "@ctx")>>)>>
+                [] site = "includecomputed" -> <<RangeS("ccr", "none", "", "", "", ListE("slice", <<"cca", "ccb", "cal3", "cca">>), <<Incl("call", "@ctx")>>)>>
       focal == <<T("f0")>> \o call \o <<P("fs", Var("s")), P("fctx", Ctx), P("fi2", IsSetE("x2")), T("f1")>>
       r    == Build(path, 1, focal)
       main == <<BlockS("ibd", "ib", <<>>, NoE, <<T("IB")>>), T("pre"), LetS("ls", "s", Lit("s0"))>> \o r.main \o
               <<P("zs", Var("s")), P("zctx", Ctx), P("zi2", IsSetE("x2")), P("zir", IsSetE("r")), T("post")>>
   IN [ts |-> <<Tm("main", "", <<"lib">>, main), Tm("lib", "", <<>>, r.bl), cal, lay1, lay2,
-               Tm("cal2", "", <<>>, <<T("n0"), Ret("nr", Lit("nv"))>>), Tm("cal3", "", <<>>, <<T("n3")>>)>> \o r.ts,
+               Tm("cal2", "", <<>>, <<T("n0"), Ret("nr", Lit("nv"))>>), Tm("cal3", "", <<>>, <<T("n3")>>),
+               Tm("cca", "", <<>>, <<T("ca")>>), Tm("ccb", "", <<>>, <<T("cb"), P("cbx", Ctx)>>)>> \o r.ts,
       globals |-> NoVarsMap, runs |-> <<RunR("main", NoVarsMap, "D")>>,
       tag |-> PathTag(path) \o "|" \o site \o "|" \o shape \o "|" \o rk]
 
